@@ -118,6 +118,40 @@ def generate():
     if not m:
         raise gt.GenError("hq.rs: distance_histogram_size cap not found")
     out.append("Definition HQ_DIST_HIST_CAP : N := %d." % gt.parse_num(m.group(1), "hq.rs"))
+    # ---- the last-distance cache around meta-blocks that are re-emitted uncompressed (WriteMetaBlockInternal),
+    #      its hand-over to the next meta-block (encode_data) and its poisoning for catable streams (ensure_initialized)
+    def nocomment(t):
+        t = re.sub(r"//[^\n]*", "", t)
+        return re.sub(r"/\*.*?\*/", "", t, flags=re.S)
+    w = nocomment(gt.fn_body_any(e, "WriteMetaBlockInternal", "encode.rs"))
+    restore = r"(\w+)\[\.\.4\]\.clone_from_slice\(&(\w+)\[\.\.4\]\);"
+    m1 = re.search(r"if\s+!should_compress\((?:[^()]|\([^()]*\))*\)\s*\{(.*?)store_uncompressed_meta_block\(", w, re.S)
+    if not m1:
+        raise gt.GenError("WriteMetaBlockInternal: `if !should_compress(..) { .. store_uncompressed_meta_block(` not found")
+    r1 = re.search(restore, m1.group(1))
+    m2 = re.search(r"if\s+bytes\s*\+\s*4\s*\+\s*saved_byte_location\s*<\s*\(\*storage_ix\s*>>\s*3\)\s*\{(.*?)store_uncompressed_meta_block\(", w, re.S)
+    if not m2:
+        raise gt.GenError("WriteMetaBlockInternal: the `bytes + 4 + saved_byte_location < (*storage_ix >> 3)` fallback not found")
+    r2 = re.search(restore, m2.group(1))
+    sig = re.search(r"(\w+)\s*:\s*&\[i32;\s*kNumDistanceCacheEntries\],\s*(\w+)\s*:\s*&mut\s*\[i32;\s*16\]", w)
+    if not sig:
+        raise gt.GenError("WriteMetaBlockInternal: saved / current distance cache parameters not found")
+    saved_name, cur_name = sig.group(1), sig.group(2)
+    ok1 = bool(r1) and r1.group(1) == cur_name and r1.group(2) == saved_name
+    ok2 = bool(r2) and r2.group(1) == cur_name and r2.group(2) == saved_name
+    out.append("Definition WMB_RESTORES_WHEN_NOT_COMPRESSING : bool := %s." % ("true" if ok1 else "false"))
+    out.append("Definition WMB_RESTORES_WHEN_BIGGER_THAN_INPUT : bool := %s." % ("true" if ok2 else "false"))
+    ed = nocomment(gt.fn_body_any(e, "encode_data", "encode.rs"))
+    out.append("Definition ENC_SAVES_CACHE_AFTER_BLOCK : bool := %s." %
+               ("true" if re.search(r"self\.saved_dist_cache_\s*\.clone_from_slice\(self\.dist_cache_\.split_at\(4\)\.0\);", ed) else "false"))
+    ei = nocomment(gt.fn_body_any(e, "ensure_initialized", "encode.rs"))
+    mc = re.search(r"if\s+self\.params\.catable\s*\{(.*?)\}\s*self\.is_initialized_\s*=\s*true;", ei, re.S)
+    if not mc:
+        raise gt.GenError("ensure_initialized: the catable branch not found")
+    pd = re.search(r"for\s+(\w+)\s+in\s+self\.dist_cache_\.iter_mut\(\)\s*\{\s*\*\1\s*=\s*%s;\s*\}" % gt.LIT, mc.group(1))
+    psv = re.search(r"for\s+(\w+)\s+in\s+self\.saved_dist_cache_\.iter_mut\(\)\s*\{\s*\*\1\s*=\s*%s;\s*\}" % gt.LIT, mc.group(1))
+    out.append("Definition CATABLE_POISON_DIST_CACHE : option Z := %s." % (("Some %d%%Z" % gt.parse_num(pd.group(2), "poison")) if pd else "None"))
+    out.append("Definition CATABLE_POISON_SAVED_DIST_CACHE : option Z := %s." % (("Some %d%%Z" % gt.parse_num(psv.group(2), "poison")) if psv else "None"))
     # SetCost is handed the histogram and distance_histogram_size
     if not re.search(r"SetCost\(\s*&" + re.escape(hist_name) + r"\[\.\.\],\s*self\.distance_histogram_size\s*as\s*usize,", b):
         raise gt.GenError("hq.rs set_from_commands: SetCost(&histogram_dist[..], self.distance_histogram_size ..) not found")
